@@ -54,6 +54,8 @@ func checkC15(c *Ctx) (string, error) {
 	}
 	checkReflectPruning(c, sp, bp, rfl)
 	checkTypeStrings(c, ap, rtabi, rfl)
+	checkPublicElemLinks(c, sp)
+	checkDeepEqualSlice(c, rfl)
 	return "C15 (structural): descriptor layout contract (the structs lib/reflect reads through vs the value lists the compiler emits), kind numbering, preservation of names/tags/embedding through every type rebuild, soundness of the reflect-usage pruning (recognised names exist, each constructor flag retains its kind, dynamic method selection retains all methods), and agreement of the two type-string builders with reflect's spellings incl. the star-aware rendering of element types. NOT decided: the behaviour of the reflect port's algorithms (field search, DeepEqual, conversions, method calls) and fmt verb formatting - these are value-level.", nil
 }
 
@@ -213,6 +215,53 @@ func checkTypeStrings(c *Ctx, ap, rtabi, rfl *packages.Package) {
 			}
 			c.Check(ok && bad == "", "R15.4", "abi."+fn+" "+kind+" element is star-aware", cc.Pos(), starAware+"(elem)", fmt.Sprintf("the element type of a %s is rendered with %s, which drops the '*' of pointer elements: %s of *T prints like %s of T", kind, bad, kind, kind))
 		}
+		// map keys can be pointer types too
+		if cc := arms["Map"]; cc != nil {
+			okKey, badKey := false, ""
+			for _, call := range callsIn(cc) {
+				f := calleeOf(ap.TypesInfo, call)
+				if f == nil || len(call.Args) != 1 || !strings.HasSuffix(strings.ReplaceAll(exprStr(call.Args[0]), " ", ""), ".Key()") {
+					continue
+				}
+				if f.Name() == starAware {
+					okKey = true
+				} else if f.Pkg() == ap.Types {
+					badKey = f.Name()
+				}
+			}
+			c.Check(okKey && badKey == "", "R15.4", "abi."+fn+" Map key is star-aware", cc.Pos(), starAware+"(key)", "the key type of a map is rendered with "+badKey+", which drops the '*' of pointer keys: map[*T]V prints as map[T]V")
+		}
+		// chan (<-chan T): a bidirectional channel of receive-only channels needs parentheses
+		if cc := arms["Chan"]; cc != nil {
+			src := strings.ReplaceAll(srcOf(cc), " ", "")
+			// the direction test may live in a helper of the same package
+			for _, call := range callsIn(cc) {
+				if f := calleeOf(ap.TypesInfo, call); f != nil && f.Pkg() == ap.Types {
+					if hd := findFunc(ap, f.Name()); hd != nil && hd.Recv == nil {
+						hs := strings.ReplaceAll(srcOf(hd.Body), " ", "")
+						if strings.Contains(hs, "RecvOnly") && strings.Contains(hs, "SendRecv") {
+							src += "RecvOnly"
+						}
+					}
+				}
+			}
+			c.Check(strings.Contains(src, "RecvOnly") && strings.Contains(src, `"("`), "R15.4", "abi."+fn+" Chan of receive-only chan is parenthesised", cc.Pos(), "chan (<-chan T)", "a channel whose element is a receive-only channel is rendered without parentheses: `chan <-chan int` where reflect prints `chan (<-chan int)`")
+		}
+	}
+	// struct tags are part of the type string
+	if fd := findFunc(ap, "Builder.structStr"); fd != nil {
+		c.Check(nodeHas(fd.Body, func(n ast.Node) bool {
+			call, ok := n.(*ast.CallExpr)
+			if !ok {
+				return false
+			}
+			f := calleeOf(ap.TypesInfo, call)
+			return f != nil && f.Name() == "Tag" && recvNamed(f) == "Struct"
+		}), "R15.4", "abi.Builder.structStr renders field tags", fd.Pos(), "Struct.Tag(i) reaches the string", "struct type strings omit field tags: reflect prints `struct { A int \"json:\\\"a\\\"\" }`")
+	} else {
+		c.Undecided("R15.4", "abi.Builder.structStr", 0, "function not found")
+	}
+	{
 	}
 	// channel directions
 	if fd := findFunc(ap, "ChanDir"); fd != nil {
